@@ -46,9 +46,10 @@ func init() {
 				if isInitializer(f) {
 					continue
 				}
+				nn := nonNilAnalysis(c, f)
 				ff := Facts(c, f)
 				for _, b := range f.Blocks {
-					for _, ins := range b.Instrs {
+					for i, ins := range b.Instrs {
 						var ptr ssa.Value
 						switch x := ins.(type) {
 						case *ssa.UnOp:
@@ -75,72 +76,15 @@ func init() {
 							s.OK(key, pos, "unreachable")
 							continue
 						}
-						k := collKey(base) + "." + el
-						var origins []*ssa.BasicBlock
-						tested := false
-						for _, fa := range ff.At(b) {
-							bo, ok := fa.Cond.(*ssa.BinOp)
-							if !ok || (bo.Op != token.EQL && bo.Op != token.NEQ) {
-								continue
-							}
-							for _, pr := range [][2]ssa.Value{{bo.X, bo.Y}, {bo.Y, bo.X}} {
-								if !isNilConst(pr[1]) {
-									continue
-								}
-								if ld, ok := pr[0].(*ssa.UnOp); ok && ld.Op == token.MUL {
-									if fa2, ok := ld.X.(*ssa.FieldAddr); ok && collKey(fa2.X)+"."+fieldElem(fa2.X.Type(), fa2.Field) == k {
-										if (bo.Op == token.NEQ) == fa.Val {
-											tested = true
-											origins = append(origins, fa.Origin)
-										}
-									}
-								}
-							}
-						}
-						if tested {
-							if w, why := writesBetween(c, f, "x."+el, ins, origins); w {
-								tested = false
-								_ = why
-							}
-						}
-						// a dominating store of a fresh object into the same field in the same block
-						if !tested {
-							for _, prev := range b.Instrs {
-								if prev == ins {
-									break
-								}
-								if st, ok := prev.(*ssa.Store); ok {
-									if fa2, ok := st.Addr.(*ssa.FieldAddr); ok && fa2.X == base && fieldElem(fa2.X.Type(), fa2.Field) == el {
-										if _, isAlloc := st.Val.(*ssa.Alloc); isAlloc {
-											tested = true
-										} else {
-											tested = false
-										}
-									}
-								}
-								if call, ok := prev.(ssa.CallInstruction); ok && tested {
-									// a call in between may overwrite the field
-									for _, cl := range c.P.Callees(f, call) {
-										if sum := BuildEff(c).Sum(cl); sum != nil {
-											for m := range sum.Mut {
-												if strings.Contains(m, el) {
-													tested = false
-												}
-											}
-										}
-									}
-								}
-							}
-						}
-						if tested {
-							s.OK(key, pos, "dominated by a nil test (or a fresh store) of the same component with no write in between")
+						if nn.at(b, i)[nnKey{base, el}] {
+							s.OK(key, pos, "the component is non-nil on every path to this point (nil test, fresh store, or a parser run that stores only non-nil values)")
 							continue
 						}
 						if inv, ok := tab.find(fn, expr); ok {
 							s.OK(key, pos, "reviewed invariant: "+inv)
 							continue
 						}
-						s.Unknown(key, pos, "dereference of "+strings.TrimPrefix(el, "Url:")+" without a dominating nil test: possible nil pointer dereference")
+						s.Unknown(key, pos, "dereference of "+strings.TrimPrefix(el, "Url:")+" which may be nil on some path: possible nil pointer dereference")
 					}
 				}
 			}
@@ -806,4 +750,251 @@ func cursorLoop(c *Ctx, f *ssa.Function, l *ssaLoop) (bool, string) {
 		}
 	}
 	return true, "every cycle through the header calls an advancing method of the cursor; rewinds lie only on paths that leave the loop"
+}
+
+
+// ---- must-be-non-nil dataflow for the nullable URL components ----
+
+type nnKey struct {
+	base ssa.Value
+	el   string
+}
+
+type nnResult struct {
+	c   *Ctx
+	f   *ssa.Function
+	in  map[*ssa.BasicBlock]map[nnKey]bool
+	top map[*ssa.BasicBlock]bool
+}
+
+func nnCopy(m map[nnKey]bool) map[nnKey]bool {
+	o := make(map[nnKey]bool, len(m))
+	for k, v := range m {
+		if v {
+			o[k] = true
+		}
+	}
+	return o
+}
+
+// overrideNullable: which nullable components a BasicParser run under the given state override may set to nil.
+func overrideNullable(c *Ctx, override int64) map[string]bool {
+	sm := BuildSM(c)
+	out := map[string]bool{}
+	if sm.An == nil {
+		for el := range nullableUrlFields {
+			out[el] = true
+		}
+		return out
+	}
+	found := false
+	for _, cx := range sm.Contexts {
+		if cx.OverrideVal != override || (override == 0) != (cx.Override == "") {
+			continue
+		}
+		found = true
+		for _, p := range sm.Paths[cx.Name] {
+			for _, e := range p.Effects {
+				if !nullableUrlFields["Url:"+e.Field] {
+					continue
+				}
+				switch e.Kind {
+				case "value", "fresh", "deref":
+				default:
+					out["Url:"+e.Field] = true
+				}
+			}
+		}
+	}
+	if !found {
+		for el := range nullableUrlFields {
+			out[el] = true
+		}
+	}
+	return out
+}
+
+func (r *nnResult) transfer(st map[nnKey]bool, ins ssa.Instruction) {
+	switch x := ins.(type) {
+	case *ssa.Store:
+		fa, ok := x.Addr.(*ssa.FieldAddr)
+		if !ok {
+			return
+		}
+		el := fieldElem(fa.X.Type(), fa.Field)
+		if !nullableUrlFields[el] {
+			return
+		}
+		k := nnKey{fa.X, el}
+		switch v := x.Val.(type) {
+		case *ssa.Alloc:
+			st[k] = true
+		case *ssa.UnOp:
+			// copy of another component known to be non-nil
+			if fa2, ok := v.X.(*ssa.FieldAddr); ok && st[nnKey{fa2.X, fieldElem(fa2.X.Type(), fa2.Field)}] {
+				st[k] = true
+			} else {
+				delete(st, k)
+			}
+		default:
+			delete(st, k)
+		}
+		// the same field of other bases may alias: a store through another base value kills nothing else (distinct
+		// SSA bases are distinct variables; aliasing objects would only make a non-nil claim about the other stale
+		// if this store wrote nil)
+		if _, isAlloc := x.Val.(*ssa.Alloc); !isAlloc {
+			for k2 := range st {
+				if k2.el == el && k2.base != fa.X {
+					delete(st, k2)
+				}
+			}
+		}
+	case ssa.CallInstruction:
+		com := x.Common()
+		if _, ok := com.Value.(*ssa.Builtin); ok {
+			return
+		}
+		kill := map[string]bool{}
+		e := BuildEff(r.c)
+		for _, cl := range r.c.P.Callees(r.f, x) {
+			if cl.Name() == "BasicParser" && namedOf(recvType(cl)) == "parser" {
+				args := com.Args
+				if ov, ok := constInt(args[len(args)-1]); ok {
+					for el := range overrideNullable(r.c, ov) {
+						kill[el] = true
+					}
+					continue
+				}
+			}
+			sum := e.Sum(cl)
+			if sum == nil {
+				continue
+			}
+			for m := range sum.Mut {
+				for _, pe := range pathElems(m) {
+					if nullableUrlFields[pe] {
+						kill[pe] = true
+					}
+				}
+			}
+		}
+		if com.IsInvoke() && com.Method.Name() == "BasicParser" {
+			if ov, ok := constInt(com.Args[len(com.Args)-1]); ok {
+				kill = map[string]bool{}
+				for el := range overrideNullable(r.c, ov) {
+					kill[el] = true
+				}
+			}
+		}
+		for k := range st {
+			if kill[k.el] {
+				delete(st, k)
+			}
+		}
+	}
+}
+
+func nonNilAnalysis(c *Ctx, f *ssa.Function) *nnResult {
+	return c.Memo("nonnil:"+f.String(), func() interface{} {
+		r := &nnResult{c: c, f: f, in: map[*ssa.BasicBlock]map[nnKey]bool{}, top: map[*ssa.BasicBlock]bool{}}
+		ff := Facts(c, f)
+		for _, b := range f.Blocks {
+			r.top[b] = true
+		}
+		if len(f.Blocks) == 0 {
+			return r
+		}
+		r.top[f.Blocks[0]] = false
+		r.in[f.Blocks[0]] = map[nnKey]bool{}
+		out := func(b *ssa.BasicBlock, succIdx int) (map[nnKey]bool, bool) {
+			if r.top[b] {
+				return nil, false
+			}
+			st := nnCopy(r.in[b])
+			for _, ins := range b.Instrs {
+				r.transfer(st, ins)
+			}
+			if iff, ok := lastIf(b); ok {
+				for _, nf := range normFact(iff.Cond, succIdx == 0) {
+					bo, ok := nf.Cond.(*ssa.BinOp)
+					if !ok || (bo.Op != token.EQL && bo.Op != token.NEQ) {
+						continue
+					}
+					for _, pr := range [][2]ssa.Value{{bo.X, bo.Y}, {bo.Y, bo.X}} {
+						if !isNilConst(pr[1]) {
+							continue
+						}
+						if ld, ok := pr[0].(*ssa.UnOp); ok && ld.Op == token.MUL {
+							if fa, ok := ld.X.(*ssa.FieldAddr); ok {
+								el := fieldElem(fa.X.Type(), fa.Field)
+								if nullableUrlFields[el] && (bo.Op == token.NEQ) == nf.Val {
+									st[nnKey{fa.X, el}] = true
+								}
+							}
+						}
+					}
+				}
+			}
+			return st, true
+		}
+		for changed, rounds := true, 0; changed && rounds < 100; rounds++ {
+			changed = false
+			for _, b := range f.Blocks {
+				if b == f.Blocks[0] || !ff.Reachable(b) {
+					continue
+				}
+				var meet map[nnKey]bool
+				have := false
+				for _, p := range b.Preds {
+					for si, s := range p.Succs {
+						if s != b || !ff.feasible[p][si] || !ff.Reachable(p) {
+							continue
+						}
+						o, ok := out(p, si)
+						if !ok {
+							continue
+						}
+						if !have {
+							meet, have = o, true
+						} else {
+							for k := range meet {
+								if !o[k] {
+									delete(meet, k)
+								}
+							}
+						}
+					}
+				}
+				if !have {
+					continue
+				}
+				if r.top[b] || len(meet) != len(r.in[b]) {
+					r.top[b] = false
+					r.in[b] = meet
+					changed = true
+				} else {
+					for k := range meet {
+						if !r.in[b][k] {
+							r.in[b] = meet
+							changed = true
+							break
+						}
+					}
+				}
+			}
+		}
+		return r
+	}).(*nnResult)
+}
+
+// at returns the facts holding right before instruction idx of block b.
+func (r *nnResult) at(b *ssa.BasicBlock, idx int) map[nnKey]bool {
+	if r.top[b] {
+		return map[nnKey]bool{}
+	}
+	st := nnCopy(r.in[b])
+	for i := 0; i < idx && i < len(b.Instrs); i++ {
+		r.transfer(st, b.Instrs[i])
+	}
+	return st
 }
